@@ -159,6 +159,12 @@ def c04_checks(c, delays, stim, n, opts, caps, shift, scale, mono, stim2=None):
     except Exception as e:  # noqa
         return [('exception', repr(e))]
     out += WD.check_sta(sim, c, delays, stim, n, opts)
+    if caps != 4:
+        # the same run with the smallest capacity: waveforms overflow, what remains (and what is captured) still lies in the window
+        try:
+            out += [('caps4:' + cl, 'capacity 4: ' + msg) for cl, msg in WD.check_sta(WD.run(c, delays, stim, n, opts, 4), c, delays, stim, n, opts)]
+        except Exception as e:  # noqa
+            out.append(('caps4:exception', repr(e)))
     base = WD.all_waves(sim, c, n)
     base_summary = WD.summary(sim, (3, 6)).copy()
     if stim2 is not None:
